@@ -1,9 +1,171 @@
 /-
   Props/C24 — property theorems for "Integer and hex encodings are minimal and invertible".
   Only property statements live here; helper lemmas are in Proofs/C24.lean.
+
+  "Minimal" is stated as: every byte string that decodes to `v` is at least as long as the
+  encoder's output (the empty string, which every decoder also reads as 0, is the one
+  documented exception: the encoders emit `[0]` for 0).  Because two's-complement decoding is
+  injective on strings of equal length, this also gives uniqueness: the encoder's output is
+  the only shortest non-empty string with that value (`*_canonical`).
 -/
 import Goloop.Proofs.C24
 namespace Goloop.C24
+open Goloop.C24.Proofs
+
+/-! ## int64 -/
+
+/-- `SafeBytesToInt64 (Int64ToBytes v) = v` for every int64. -/
+theorem int64_roundtrip (v : Int) (h : -(2:Int)^63 ≤ v ∧ v < (2:Int)^63) :
+    safeBytesToInt64 (int64ToBytes v) = some v := by
+  obtain ⟨hm, hl⟩ := int64ToBytes_spec v h
+  rw [safeBytesToInt64_eq, if_neg (by omega), hm.val]
+
+/-- the 8-iteration loop never runs out of slots: 1 ≤ length ≤ 8. -/
+theorem int64_length (v : Int) (h : -(2:Int)^63 ≤ v ∧ v < (2:Int)^63) :
+    1 ≤ (int64ToBytes v).length ∧ (int64ToBytes v).length ≤ 8 := by
+  obtain ⟨hm, hl⟩ := int64ToBytes_spec v h
+  have := hm.ne
+  exact ⟨by cases hx : int64ToBytes v with | nil => exact absurd hx this | cons _ _ => simp, hl⟩
+
+/-- Minimality: any non-empty byte string that `SafeBytesToInt64` decodes to `v` is at least as
+    long as `Int64ToBytes v`. -/
+theorem int64_minimal (v : Int) (h : -(2:Int)^63 ≤ v ∧ v < (2:Int)^63) (bs : Bytes)
+    (hne : bs ≠ []) (hd : safeBytesToInt64 bs = some v) :
+    (int64ToBytes v).length ≤ bs.length := by
+  rw [safeBytesToInt64_eq] at hd
+  split at hd
+  · cases hd
+  · exact minSigned_shortest (int64ToBytes_spec v h).1 hne (Option.some.inj hd)
+
+/-- Canonical form: a decodable string of the same length as the encoder's output IS the
+    encoder's output. -/
+theorem int64_canonical (v : Int) (h : -(2:Int)^63 ≤ v ∧ v < (2:Int)^63) (bs : Bytes)
+    (hd : safeBytesToInt64 bs = some v) (hl : bs.length = (int64ToBytes v).length) :
+    bs = int64ToBytes v := by
+  rw [safeBytesToInt64_eq] at hd
+  split at hd
+  · cases hd
+  · exact beInt_inj hl ((Option.some.inj hd).trans (int64ToBytes_spec v h).1.val.symm)
+
+/-- `SafeBytesToInt64` rejects exactly the strings longer than 8 bytes … -/
+theorem int64_decoder_accepts_iff (bs : Bytes) :
+    (safeBytesToInt64 bs).isSome ↔ bs.length ≤ 8 := by
+  rw [safeBytesToInt64_eq]; split <;> simp <;> omega
+
+/-- … and whatever it accepts is an int64 (no overflow in the Go accumulator) whose
+    two's-complement value is the result. -/
+theorem int64_decoder_range (bs : Bytes) (v : Int) (hd : safeBytesToInt64 bs = some v) :
+    v = beInt bs ∧ -(2:Int)^63 ≤ v ∧ v < (2:Int)^63 := by
+  rw [safeBytesToInt64_eq] at hd
+  split at hd
+  · cases hd
+  · have hv := Option.some.inj hd
+    subst hv
+    refine ⟨rfl, ?_⟩
+    rw [← fitsS7_iff]
+    cases bs with
+    | nil => show fitsS 7 0; unfold fitsS; have := pow256_pos 7; omega
+    | cons b r => exact fitsS_mono (by simp at *; omega) (beInt_fits b r)
+
+example : (-(2:Int)^63 ≤ -129 ∧ (-129:Int) < (2:Int)^63) ∧ int64ToBytes (-129) = [0xff, 0x7f]
+    ∧ safeBytesToInt64 [0xff, 0xff, 0x7f] = some (-129) := by decide
+
+/-! ## uint64 -/
+
+/-- `SafeBytesToUint64 (Uint64ToBytes v) = v` for every uint64. -/
+theorem uint64_roundtrip (v : Nat) (h : v < 2 ^ 64) :
+    safeBytesToUint64 (uint64ToBytes v) = some v := Proofs.uint64_roundtrip v h
+
+/-- 9 slots suffice. -/
+theorem uint64_length (v : Nat) (h : v < 2 ^ 64) :
+    1 ≤ (uint64ToBytes v).length ∧ (uint64ToBytes v).length ≤ 9 := by
+  obtain ⟨hm, hl⟩ := uint64ToBytes_spec v h
+  have := hm.ne
+  exact ⟨by cases hx : uint64ToBytes v with | nil => exact absurd hx this | cons _ _ => simp, hl⟩
+
+/-- the output never has its sign bit set (a leading 0 is added when the top bit is set). -/
+theorem uint64_no_sign_bit (v : Nat) (h : v < 2 ^ 64) :
+    ∃ b r, uint64ToBytes v = b :: r ∧ b.toNat < 128 := by
+  obtain ⟨hm, _⟩ := uint64ToBytes_spec v h
+  cases hx : uint64ToBytes v with
+  | nil => exact absurd hx hm.ne
+  | cons b r =>
+    rw [hx] at hm
+    exact ⟨b, r, rfl, head_lt_128_of_beInt_nonneg (by rw [hm.val]; exact Int.natCast_nonneg _)⟩
+
+/-- Minimality of `Uint64ToBytes` among everything `SafeBytesToUint64` accepts. -/
+theorem uint64_minimal (v : Nat) (h : v < 2 ^ 64) (bs : Bytes)
+    (hne : bs ≠ []) (hd : safeBytesToUint64 bs = some v) :
+    (uint64ToBytes v).length ≤ bs.length :=
+  minSigned_shortest (uint64ToBytes_spec v h).1 hne (safeBytesToUint64_some hd).1
+
+theorem uint64_canonical (v : Nat) (h : v < 2 ^ 64) (bs : Bytes)
+    (hd : safeBytesToUint64 bs = some v) (hl : bs.length = (uint64ToBytes v).length) :
+    bs = uint64ToBytes v :=
+  beInt_inj hl ((safeBytesToUint64_some hd).1.trans (uint64ToBytes_spec v h).1.val.symm)
+
+/-- `SafeBytesToUint64` rejects a set sign bit. -/
+theorem uint64_decoder_rejects_sign_bit (b : UInt8) (r : Bytes) (hb : b.toNat ≥ 128) :
+    safeBytesToUint64 (b :: r) = none := by
+  unfold safeBytesToUint64
+  have : b ≠ 0 := by intro h; subst h; simp at hb
+  simp [this, hb]
+
+/-- `SafeBytesToUint64` rejects overlong input: more than 9 bytes, or 9 bytes without the
+    leading zero. -/
+theorem uint64_decoder_rejects_overlong (b : UInt8) (r : Bytes)
+    (hl : r.length > 8 ∨ (r.length = 8 ∧ b ≠ 0)) :
+    safeBytesToUint64 (b :: r) = none := by
+  unfold safeBytesToUint64
+  by_cases hb0 : b = 0
+  · have : r.length > 8 := by rcases hl with h | ⟨_, h⟩; exact h; exact absurd hb0 h
+    simp [hb0, this]
+  · by_cases hb : b.toNat ≥ 128
+    · simp [hb0, hb]
+    · have : (b :: r).length > 8 := by simp; omega
+      simp only [hb0, hb, if_false, this, if_true]
+
+/-- everything else is accepted, and the result is always a uint64. -/
+theorem uint64_decoder_accepts (b : UInt8) (r : Bytes) (hb : b.toNat < 128)
+    (hl : (b :: r).length ≤ 9) (hv : beNat (b :: r) < 2 ^ 64) :
+    safeBytesToUint64 (b :: r) = some (beNat (b :: r)) := safeBytesToUint64_accepts hb hl hv
+
+theorem uint64_decoder_range (bs : Bytes) (v : Nat) (hd : safeBytesToUint64 bs = some v) :
+    v < 2 ^ 64 := (safeBytesToUint64_some hd).2
+
+example : uint64ToBytes 255 = [0, 0xff] ∧ uint64ToBytes (2^64 - 1) = [0, 0xff, 0xff, 0xff, 0xff, 0xff, 0xff, 0xff, 0xff]
+    ∧ safeBytesToUint64 [0, 0, 0xff] = some 255 ∧ safeBytesToUint64 [0xff] = none := by decide
+
+/-! ## big integers -/
+
+/-- `BigIntSetBytes (BigIntToBytes i) = i` for EVERY integer. -/
+theorem big_roundtrip (i : Int) : bigIntSetBytes (bigIntToBytes i) = i := Proofs.big_roundtrip i
+
+/-- `BigIntSetBytes` is plain two's-complement reading (the `BitLen` trick is exact). -/
+theorem big_decoder_is_twos_complement (bs : Bytes) : bigIntSetBytes bs = beInt bs :=
+  bigIntSetBytes_eq_beInt bs
+
+/-- Minimality of `BigIntToBytes` for every integer. -/
+theorem big_minimal (i : Int) (bs : Bytes) (hne : bs ≠ []) (hd : bigIntSetBytes bs = i) :
+    (bigIntToBytes i).length ≤ bs.length :=
+  minSigned_shortest (bigIntToBytes_spec i) hne (by rw [← bigIntSetBytes_eq_beInt]; exact hd)
+
+theorem big_canonical (i : Int) (bs : Bytes) (hd : bigIntSetBytes bs = i)
+    (hl : bs.length = (bigIntToBytes i).length) : bs = bigIntToBytes i :=
+  beInt_inj hl (by rw [← bigIntSetBytes_eq_beInt, hd]; exact (bigIntToBytes_spec i).val.symm)
+
+/-- The three signed encoders agree wherever their domains overlap (one canonical form). -/
+theorem int64_eq_big (v : Int) (h : -(2:Int)^63 ≤ v ∧ v < (2:Int)^63) :
+    int64ToBytes v = bigIntToBytes v :=
+  minSigned_unique (int64ToBytes_spec v h).1 (bigIntToBytes_spec v)
+
+theorem uint64_eq_big (v : Nat) (h : v < 2 ^ 64) : uint64ToBytes v = bigIntToBytes (v : Int) :=
+  minSigned_unique (uint64ToBytes_spec v h).1 (bigIntToBytes_spec v)
+
+example : bigIntToBytes (-(2^64)) = [0xff, 0, 0, 0, 0, 0, 0, 0, 0] ∧ bigIntToBytes (2^63) = [0, 0x80, 0, 0, 0, 0, 0, 0, 0] := by
+  decide
+
+/-! ## size (unsigned, no sign byte) -/
 
 /-- SizeToBytes/SafeBytesToSize64 round trip for every uint64. -/
 theorem size_roundtrip (v : Nat) (h : v < 2 ^ 64) :
@@ -14,6 +176,57 @@ theorem size_minimal (v : Nat) (h : v < 2 ^ 64) :
     (v = 0 → sizeToBytes v = [0]) ∧ (v ≠ 0 → (sizeToBytes v).head? ≠ some 0 ∧ (sizeToBytes v) ≠ []) :=
   Proofs.size_minimal v h
 
+/-- … equivalently: every non-empty string that `SafeBytesToSize64` decodes to `v` is at least as long. -/
+theorem size_shortest (v : Nat) (h : v < 2 ^ 64) (bs : Bytes) (hne : bs ≠ [])
+    (hd : safeBytesToSize64 bs = some v) : (sizeToBytes v).length ≤ bs.length := by
+  unfold safeBytesToSize64 at hd
+  split at hd
+  · cases hd
+  · exact Proofs.size_shortest v h bs hne (Option.some.inj hd)
+
 example : (255 : Nat) < 2 ^ 64 ∧ sizeToBytes 256 = [1, 0] := by decide
+
+/-! ## hex text -/
+
+/-- `ParseBigInt (FormatBigInt i) = i` for EVERY integer (this is also `HexInt.String` /
+    `HexInt.UnmarshalJSON` modulo JSON quoting). -/
+theorem hex_big_roundtrip (i : Int) : parseBigInt (formatBigInt i) = some i :=
+  Proofs.formatBigInt_roundtrip i
+
+/-- `ParseUint (FormatUint v, bits) = v` for every `bits`-bit unsigned value (HexUint16/32/64). -/
+theorem hex_uint_roundtrip (bits : Nat) (hb : bits ≤ 64) (v : Nat) (h : v < 2 ^ bits) :
+    parseUint (formatUint v) bits = some v := Proofs.formatUint_roundtrip bits hb v h
+
+/-- `ParseInt (FormatInt v, bits) = v` for every `bits`-bit signed value (HexInt16/32/64),
+    including the most negative one, whose magnitude does not fit the signed type. -/
+theorem hex_int_roundtrip (bits : Nat) (hb1 : 1 ≤ bits) (hb : bits ≤ 64) (v : Int)
+    (h : -(2:Int) ^ (bits - 1) ≤ v ∧ v < (2:Int) ^ (bits - 1)) :
+    parseInt (formatInt v) bits = some v := Proofs.formatInt_roundtrip bits hb1 hb v h
+
+example : formatInt (-(2:Int)^63) = "-0x8000000000000000" ∧ formatBigInt (-255) = "-0xff" ∧ formatUint 0 = "0x0"
+    ∧ parseInt "-0x8000000000000000" 64 = some (-(2:Int)^63) ∧ parseInt "0x8000000000000000" 64 = none := by
+  decide
+
+/-- the printed text is canonical: sign, `0x`, then a non-empty lower-case digit string without a
+    superfluous leading zero digit pair (at most one nibble is stripped). -/
+theorem hex_big_shape (i : Int) : ∃ ns : List Nat, ns ≠ [] ∧ (∀ n ∈ ns, n < 16) ∧
+    hexVal ns 0 = i.natAbs ∧
+    (formatBigInt i).toList = hexPrefix (decide (i < 0)) ++ ns.map Hex.digit := by
+  have hneg : natBytes i.natAbs = [] → decide (i < 0) = false := by
+    intro hc
+    have := beNat_natBytes i.natAbs
+    rw [hc] at this
+    simp [beNat] at this
+    simp; omega
+  obtain ⟨ns, a, b, c, d⟩ := encodeHexNumber_shape (decide (i < 0)) (natBytes i.natAbs) hneg
+  exact ⟨ns, a, b, by rw [c, beNat_natBytes], d⟩
+
+/-- hex text is minimal too: `"0x0"` for zero, otherwise sign, `0x` and a digit string whose first digit
+    is not `0` (the shape the JSON-RPC `t_int` validator `^0x(0|[1-9a-f][0-9a-f]*)$` demands). -/
+theorem hex_big_minimal (i : Int) :
+    (i = 0 ∧ formatBigInt i = "0x0") ∨
+    (i ≠ 0 ∧ ∃ n ns, n ≠ 0 ∧ (∀ m ∈ n :: ns, m < 16) ∧ hexVal (n :: ns) 0 = i.natAbs ∧
+      (formatBigInt i).toList = hexPrefix (decide (i < 0)) ++ (n :: ns).map Hex.digit) :=
+  Proofs.formatBigInt_minimal i
 
 end Goloop.C24
